@@ -42,6 +42,35 @@ def inputs_c02(rng, tier):
         fr.append(b)
         for _ in range(2):
             fr.append(b + bytearray(rng.getrandbits(8) for _ in range(rng.randrange(1, 19))))
+    # every frame shape (format x payload variant) at exactly its length, one byte short, and with bytes after it; the
+    # events tagged "tail" carry the same frame as the event before them and must decode identically
+    shapes = []
+    for df in sorted(gen.SUPPORTED):
+        if df in (17, 18):
+            for tc in range(32):
+                for st in ((0, 1, 2, 5) if tc == 31 else (None,)):
+                    shapes.append(lambda df=df, tc=tc, st=st: es_frame(rng, df, tc, st31=st))
+        elif df in (20, 21):
+            for first in (0x00, 0x10, 0x20, 0x30, 0xFF):
+                def mk(df=df, first=first):
+                    b = rnd_frame(rng, df); b[4] = first; return b
+                shapes.append(mk)
+        elif df in (4, 5):
+            for drv in (0, 1, 4, 5, 9, 31):
+                def mk(df=df, drv=drv):
+                    b = rnd_frame(rng, df); setf(b, 8, 5, drv); return b
+                shapes.append(mk)
+        else:
+            shapes.append(lambda df=df: rnd_frame(rng, df))
+    tails = []
+    for mk in shapes:
+        for _ in range(q(tier, 2, 12)):
+            b = mk()
+            fr.append(b[:-1])
+            fr.append(b)
+            for n in (1, 3, rng.randrange(2, 19)):
+                tails.append(len(fr))
+                fr.append(b + bytearray(rng.getrandbits(8) for _ in range(n)))
     # truncated long frames of every shape (one byte short down to the bare header)
     for _ in range(q(tier, 40, 400)):
         for df in sorted(gen.LONG):
@@ -49,7 +78,10 @@ def inputs_c02(rng, tier):
             if df in (20, 21):
                 b[4] = rng.choice((0x00, 0x10, 0x20, rng.getrandbits(8)))
             fr.append(b[:rng.randrange(1, 14)])
-    return gen.as_inputs(fr)
+    out = gen.as_inputs(fr)
+    for i in tails:
+        out[i]["tag"] = "tail"
+    return out
 
 
 def inputs_c03(rng, tier):
